@@ -93,6 +93,18 @@ pub fn build_gadget(
             });
             returned.insert("bits".into(), json!(r));
         }
+        "mul_generator" => {
+            // fixed-base multiplication with the standard generator; the scalar is the input
+            let sc = inp(c, "s");
+            match c.component_mul_generator(sc, dusk_jubjub::GENERATOR_EXTENDED) {
+                Ok(r) => {
+                    returned.insert("out".into(), json!([r.x().index(), r.y().index()]));
+                }
+                Err(e) => {
+                    returned.insert("error".into(), json!(format!("{:?}", e)));
+                }
+            }
+        }
         "mul_point" => {
             // concrete subgroup point and scalar (shape extraction)
             let s = inp(c, "s");
